@@ -640,8 +640,8 @@ class Interp:
                     v = self.ev(g, {})
                 self._glob_cache[e.id] = v
                 return v
-            if e.id == "islice":
-                return ("itertools", "islice")
+            if e.id in ("islice", "chain", "pairwise"):     # `from itertools import ...`
+                return ("itertools", e.id)
             if e.id in ("float", "int", "len", "range", "enumerate", "list", "tuple", "min", "max", "isinstance",
                         "callable", "zip", "Number", "Real", "Integral", "bool", "abs", "reversed", "sum", "dict", "type", "slice", "sorted", "str", "iter", "all", "any", "partial"):
                 return ("builtin", e.id)
@@ -861,6 +861,9 @@ class Interp:
         if isinstance(e.value, ast.Name) and e.value.id == "itertools" and "itertools" not in env:
             return ("itertools", e.attr)
         base = self.ev(e.value, env) if not (isinstance(e.value, ast.Name) and e.value.id in ("np", "numpy", "warnings")) else None
+        if e.attr == "from_iterable" and isinstance(base, tuple) and len(base) == 2 and \
+                all(isinstance(b_, str) for b_ in base) and base == ("itertools", "chain"):
+            return ("itertools", "chain.from_iterable")
         if isinstance(e.value, ast.Name) and e.value.id == "itertools" and "itertools" not in env:
             return ("itertools", e.attr)
         if base is None and isinstance(e.value, ast.Name):
@@ -1019,6 +1022,9 @@ class Interp:
                 return list(itertools.islice(src.it, *[None if a is None else self._int(a) for a in args[1:]]))
             if f[1] == "chain":
                 return [x for q in seqs_() for x in q]
+            if f[1] == "chain.from_iterable" and len(args) == 1:
+                outer = list(args[0].it) if isinstance(args[0], PyIter) else list(args[0])
+                return [x for q in outer for x in (list(q.it) if isinstance(q, PyIter) else list(q))]
             if f[1] == "pairwise":
                 return list(itertools.pairwise(seqs_()[0]))
             raise Undecided(f"itertools.{f[1]}")
